@@ -6,6 +6,7 @@ import (
 	"fmt"
 	"os"
 	"os/exec"
+	"syscall"
 	"path/filepath"
 	"sort"
 	"strings"
@@ -36,6 +37,25 @@ type UploadCase struct {
 	// Stale: before the first operation, destination d1/d2 already hold files with the names of the
 	// upload (same length, different bytes, not older) - a re-upload over leftovers.
 	Stale bool `json:"stale,omitempty"`
+	// CrossDev: destination d2 lives on another file system (/dev/shm) when the machine has one;
+	// a Move there may fail as a whole (rename cannot cross devices) or succeed - never half-succeed.
+	CrossDev bool `json:"crossDev,omitempty"`
+}
+
+// otherFileSystemDir returns a fresh directory on a file system different from the one of ref, or "".
+func otherFileSystemDir(ref string) string {
+	var a, b syscall.Stat_t
+	if syscall.Stat(ref, &a) != nil {
+		return ""
+	}
+	for _, cand := range []string{"/dev/shm", "/run", "/var/tmp"} {
+		if syscall.Stat(cand, &b) == nil && b.Dev != a.Dev {
+			if d, err := os.MkdirTemp(cand, "c20x-"); err == nil {
+				return d
+			}
+		}
+	}
+	return ""
 }
 
 func upContent(f UpFile) []byte {
@@ -88,6 +108,7 @@ func genUploadCase(t *rapid.T) UploadCase {
 		c.FaultStep = rapid.IntRange(0, len(c.Files)).Draw(t, "faultStep")
 	}
 	c.Stale = rapid.IntRange(0, 3).Draw(t, "stale") == 0
+	c.CrossDev = rapid.IntRange(0, 4).Draw(t, "crossDev") == 0
 	if adversarial && rapid.IntRange(0, 2).Draw(t, "fnf") == 0 {
 		c.FilenameF = rapid.SampledFrom([]string{"outside/evil", "d1/evil", "/nonexistent/evil"}).Draw(t, "filenameField")
 	}
@@ -205,6 +226,9 @@ func checkUploadCase(c UploadCase, r *Recorder) error {
 	if c.Stale {
 		cl = append(cl, "stale-files-in-destination")
 	}
+	if c.CrossDev {
+		cl = append(cl, "destination-on-another-filesystem")
+	}
 	r.Case(jsonKey(c), nt, cl...)
 	if nt {
 		r.Sample(c)
@@ -217,6 +241,20 @@ func checkUploadCase(c UploadCase, r *Recorder) error {
 	root, _ = filepath.EvalSymlinks(root)
 	for _, d := range []string{"src", "src/sub", "d1", "d2", "outside"} {
 		os.MkdirAll(filepath.Join(root, d), 0o755)
+	}
+	crossDev := false
+	if c.CrossDev {
+		if other := otherFileSystemDir(root); other != "" {
+			defer os.RemoveAll(other)
+			os.Remove(filepath.Join(root, "d2"))
+			if os.Symlink(other, filepath.Join(root, "d2")) == nil {
+				crossDev = true
+			} else {
+				os.MkdirAll(filepath.Join(root, "d2"), 0o755)
+			}
+		} else {
+			r.Count("skipped:no-second-filesystem", 1)
+		}
 	}
 	const secret = "OUTSIDE-SECRET-CONTENT-"
 	os.WriteFile(filepath.Join(root, "outside", "victim"), []byte(secret+"1"), 0o644)
@@ -353,6 +391,16 @@ func checkUploadCase(c UploadCase, r *Recorder) error {
 			}
 			return nil
 		}
+		if crossDev && op.Kind == "move" && (op.Dest == "d2") != (loc == "d2") && operr != nil {
+			// a rename cannot cross file systems: failing is fine, but then nothing may have happened
+			if b, err := os.ReadFile(filepath.Join(locDir, c.ctlName())); err != nil || !bytes.Equal(b, ctlBefore) {
+				return errf("move to another file system failed (%v) but the control file is no longer intact at its source", operr)
+			}
+			if isRegular(ctlInDst) && ctlInDstErr != nil {
+				return errf("move to another file system failed (%v) but a control file appeared in the destination", operr)
+			}
+			return nil
+		}
 		if !allPlain {
 			// names that leave the directory: refusing is fine, succeeding is fine - containment was checked above
 			if operr != nil {
@@ -418,7 +466,7 @@ func upNames(fs []UpFile) []string {
 
 var specC20 = Register(&Spec[UploadCase]{
 	Prop: "C20", Name: "upload",
-	Rule: "histories of 1..3 operations (Copy/Move into d1|d2, Remove) on one .dsc or .changes handle over a fresh scratch tree root/{src,src/sub,d1,d2,outside}; 0..5 referenced files (sizes 0, 1, 7, 300, 32767..32769, 100000); a quarter of the uploads list adversarial names ('../outside/victim', '../d1/planted', 'sub/x', absolute, '..', '.', 'sub/../../outside/victim') and/or carry a literal 'Filename:' field pointing elsewhere; in a quarter of the cases both destinations already hold same-named files of the same length with other bytes (leftovers of an earlier upload); the last operation optionally runs with ONE planted fault at step i in {file 0..n-1, control file}: source deleted, source replaced by a non-empty directory, a non-empty directory squatting on the destination name, destination directory missing or a regular file. Oracle: success (plain names, no fault) => all files and the control file byte-identical in the destination (Move: gone from source; Remove: gone), handle.Filename == dest/base; fault => an error, no regular control file in the destination, for Move/Remove the control file intact at its source; always => root/outside bit-identical, no destination file carries outside content, d1/planted untouched when d1 is not involved. Non-trivial: >= 2 files with a fault at step >= 1, or non-plain names; distinct by case.",
+	Rule: "histories of 1..3 operations (Copy/Move into d1|d2, Remove) on one .dsc or .changes handle over a fresh scratch tree root/{src,src/sub,d1,d2,outside}; 0..5 referenced files (sizes 0, 1, 7, 300, 32767..32769, 100000); a quarter of the uploads list adversarial names ('../outside/victim', '../d1/planted', 'sub/x', absolute, '..', '.', 'sub/../../outside/victim') and/or carry a literal 'Filename:' field pointing elsewhere; in a quarter of the cases both destinations already hold same-named files of the same length with other bytes (leftovers of an earlier upload); in a fifth of the cases d2 is on another file system (/dev/shm, when there is one), where a Move may fail as a whole but must not half-succeed; the last operation optionally runs with ONE planted fault at step i in {file 0..n-1, control file}: source deleted, source replaced by a non-empty directory, a non-empty directory squatting on the destination name, destination directory missing or a regular file. Oracle: success (plain names, no fault) => all files and the control file byte-identical in the destination (Move: gone from source; Remove: gone), handle.Filename == dest/base; fault => an error, no regular control file in the destination, for Move/Remove the control file intact at its source; always => root/outside bit-identical, no destination file carries outside content, d1/planted untouched when d1 is not involved. Non-trivial: >= 2 files with a fault at step >= 1, or non-plain names; distinct by case.",
 	Check: checkUploadCase,
 })
 
